@@ -45,7 +45,7 @@ def dump_mir():
     os.makedirs(MIRDIR, exist_ok=True)
     env = dict(os.environ, CARGO_TARGET_DIR=os.environ.get('VERIF_MIRTARGET', os.path.join(CACHE, 'mir-target')), CARGO_NET_OFFLINE='true')
     t0 = time.time()
-    for crate, sub, extra in (('geo_types', 'geo-types', []), ('geo', 'geo', ['--no-default-features'])):
+    for crate, sub, extra in (('geo_types', 'geo-types', ['--features', 'use-rstar_0_12']), ('geo', 'geo', ['--no-default-features'])):
         root = os.path.join(REPO, sub)
         os.utime(os.path.join(root, 'src', 'lib.rs'))
         out = os.path.join(MIRDIR, crate + '.mir')
@@ -84,11 +84,15 @@ def check_unsat(name, formulas, timeout_s=60):
         c = out[0] if out else 'no-output'
         if any('(error' in l for l in out):
             c = 'error'
+        elif 'timeout' in c or 'interrupted' in c:
+            c = 'timeout'
     except subprocess.TimeoutExpired:
         c = 'timeout'
     info['cvc5'] = c
     info['cvc5_s'] = round(time.time() - t1, 3)
     if r == z3.unsat and c in ('unsat', 'unknown', 'timeout'):
+        if c != 'unsat':
+            info['note'] = 'cvc5 cross-check did not finish (%s); verdict rests on z3' % c
         return 'pass', info, None
     if r == z3.unsat and c == 'sat':
         info['reason'] = 'solvers disagree (z3 unsat, cvc5 sat)'
@@ -432,6 +436,142 @@ def o_geometry_delegation(mir, tier, seed):
                 bad.append(z3.BoolVal(True))
     st, info, model = check_unsat('geometry_enum_traversal_delegation', [z3.Or(bad) if bad else z3.BoolVal(False)])
     return dict(theory='structural (concrete enum variants; the wrapped values and their CoordsIter methods opaque)', functions=['CoordsIter for Geometry: coords_iter, exterior_coords_iter, coords_count'], paths=npaths, status=st, info=info, model=None, replay=('geometry_delegation', ''))
+
+
+# ---- C11: the nearest-endpoint fallback really returns a nearest end point
+
+@obligation('C11', 'nearest_endpoint_is_nearest', 'line_intersection::nearest_endpoint(p, q), the fallback used when the computed crossing leaves the bounding boxes, returns one of the four end points, and one whose distance to the other segment is minimal among the four (point-to-segment distance uninterpreted: ANY four distance values); ties go to the earlier of p.start, p.end, q.start, q.end')
+def o_nearest_endpoint(mir, tier, seed):
+    T = RealTheory()
+    R = z3.RealSort()
+    p = [coord(T, 'ps'), coord(T, 'pe')]
+    q = [coord(T, 'qs'), coord(T, 'qe')]
+    dist = [T.var('d_ps'), T.var('d_pe'), T.var('d_qs'), T.var('d_qe')]
+    key = {'psx': 0, 'pex': 1, 'qsx': 2, 'qex': 3}
+
+    def pld(ip, d):
+        return dist[key[str(deref(d[0])[0])]]
+    ip = Interp(mir, T, EXTRA, {'re:geo_types::private_utils::point_line_euclidean_distance::<.*>': pld})
+    fn = mir.find('geo', r'nearest_endpoint')
+    outs = ip.call_fn(fn, [p, q], z3.BoolVal(True))
+    ends = [p[0], p[1], q[0], q[1]]
+    # distinct symbolic end points, so that the returned coordinate identifies the end point
+    bad = [z3.Not(z3.Or([pc for pc, _ in outs]))]
+    mn = dist[0]
+    for d in dist[1:]:
+        mn = z3.If(d < mn, d, mn)
+    for pc, res in outs:
+        res = deref(res)
+        which = [k for k in range(4) if str(res[0]) == str(ends[k][0]) and str(res[1]) == str(ends[k][1])]
+        if len(which) != 1:
+            bad.append(pc)
+            continue
+        k = which[0]
+        first_min = z3.And([dist[k] == mn] + [dist[j] != mn for j in range(k)])
+        bad.append(z3.And(pc, z3.Not(first_min)))
+    st, info, model = check_unsat('nearest_endpoint_is_nearest', [d >= 0 for d in dist] + [z3.Or(bad)])
+    return dict(theory='Real; point_line_euclidean_distance uninterpreted (four arbitrary distances)', functions=['line_intersection::nearest_endpoint'], paths=len(outs), status=st, info=info,
+                model=model_reals(model, dist), replay=('nearest_endpoint', ''))
+
+
+# ---- C07 / C12: the clamped-projection formula is the true point-to-segment distance (all reals)
+
+@obligation('C07', 'line_segment_distance_real', 'for ALL real points p and segments [a,b] (zero-length included): private_utils::line_segment_distance(p,a,b) is non-negative and its square equals the exact squared distance from p to the segment (|p-a|^2 before the start, |p-b|^2 beyond the end, cross^2/|b-a|^2 in between); hypot uninterpreted with h >= 0 and h^2 = x^2+y^2, float rounding outside')
+def o_lsd(mir, tier, seed):
+    T = RealTheory()
+    assumptions = []
+    hyp = {}
+
+    def hypot(ip, d):
+        k = (str(d[0]), str(d[1]))
+        if k not in hyp:
+            h = T.var('hypot_%d' % len(hyp))
+            assumptions.extend([h >= 0, h * h == d[0] * d[0] + d[1] * d[1]])
+            hyp[k] = h
+        return hyp[k]
+
+    def abs_(ip, d):
+        return z3.If(d[0] >= 0, d[0], -d[0])
+
+    def ident(ip, d):
+        return d[0]
+    uf = {'re:<\\w+ as num_traits::Float>::hypot': hypot, 're:<\\w+ as num_traits::Float>::abs': abs_,
+          're:<C as Into<geometry::coord::Coord<\\w+>>>::into': ident}
+    extra = dict(EXTRA)
+    extra[r'line::Line::<\w+>::new::<.*>'] = ('geo_types', r'line::<impl at [^>]*>::new')
+    extra[r'line_euclidean_length::<\w+>'] = ('geo_types', r'line_euclidean_length')
+    extra[r'line::Line::<\w+>::dx'] = ('geo_types', r'line::<impl at [^>]*>::dx')
+    extra[r'line::Line::<\w+>::dy'] = ('geo_types', r'line::<impl at [^>]*>::dy')
+    extra[r'line::Line::<\w+>::delta'] = ('geo_types', r'line::<impl at [^>]*>::delta')
+    extra[r'<geometry::coord::Coord<\w+> as Sub>::sub'] = ('geo_types', r'geometry::coord::<impl at [^>]*>::sub')
+    extra[r'<geometry::coord::Coord<\w+> as PartialEq>::eq'] = ('geo_types', r'geometry::coord::<impl at [^>]*>::eq')
+    ip = Interp(mir, T, extra, uf)
+    fn = mir.find('geo_types', r'line_segment_distance')
+    p, a, b = coord(T, 'p'), coord(T, 'a'), coord(T, 'b')
+    outs = ip.call_fn(fn, [p, a, b], z3.BoolVal(True))
+    sq = lambda u, v: (u[0] - v[0]) * (u[0] - v[0]) + (u[1] - v[1]) * (u[1] - v[1])
+    L = sq(a, b)
+    t = (p[0] - a[0]) * (b[0] - a[0]) + (p[1] - a[1]) * (b[1] - a[1])
+    cross = (b[0] - a[0]) * (p[1] - a[1]) - (b[1] - a[1]) * (p[0] - a[0])
+    # true squared distance times L (to stay polynomial): case analysis
+    bad = [z3.Not(z3.Or([pc for pc, _ in outs]))]
+    for pc, d in outs:
+        want = z3.If(L == 0, d * d == sq(p, a),
+                     z3.If(t <= 0, d * d == sq(p, a),
+                           z3.If(t >= L, d * d == sq(p, b), d * d * L == cross * cross)))
+        bad.append(z3.And(pc, z3.Or(d < 0, z3.Not(want))))
+    st, info, model = check_unsat('line_segment_distance_real', assumptions + [z3.Or(bad)], timeout_s=40)
+    return dict(theory='Real (nonlinear); hypot = h with h >= 0, h^2 = x^2 + y^2', functions=['geo_types::private_utils::line_segment_distance', 'line_euclidean_length', 'Line::dx', 'Line::dy'], paths=len(outs), status=st, info=info, model=None, replay=('line_segment_distance', ''))
+
+
+# ---- C05: the shoelace kernel for ALL integer coordinates (ring sizes 3..5 distinct vertices)
+
+@obligation('C05', 'ring_area_shoelace_int', 'for closed rings of 4, 5 and 6 coordinates with ANY integer coordinates: twice_signed_ring_area = sum of x_i*y_(i+1) - x_(i+1)*y_i (so the shift to the first vertex changes nothing mathematically); 0 for rings that are not closed and for fewer than 3 coordinates (LineString::lines modelled as the consecutive coordinate pairs, which C19 checks)')
+def o_ring_area(mir, tier, seed):
+    from mir2smt import SliceIter
+    T = IntTheory()
+    bad, npaths = [], 0
+
+    def lines(ip, d):
+        cs = deref(deref(d[0])[0])
+        return SliceIter([[cs[i], cs[i + 1]] for i in range(len(cs) - 1)])
+    extra = dict(EXTRA)
+    extra[r'<geo_types::Line<\w+> as map_coords::MapCoords<\w+, \w+>>::map_coords::<.*>'] = ('geo', r'map_coords::<impl at geo/src/algorithm/map_coords\.rs:\d+:1: \d+:61>::map_coords', r'_1: &geo_types::Line<')
+    extra[r'geo_types::Line::<\w+>::new::<.*>'] = ('geo_types', r'line::<impl at [^>]*>::new')
+    extra[r'geo_types::Line::<\w+>::start_point'] = ('geo_types', r'line::<impl at [^>]*>::start_point')
+    extra[r'geo_types::Line::<\w+>::end_point'] = ('geo_types', r'line::<impl at [^>]*>::end_point')
+    extra[r'<geo_types::Point<\w+> as map_coords::MapCoords<\w+, \w+>>::map_coords::<.*>'] = ('geo', r'map_coords::<impl at geo/src/algorithm/map_coords\.rs:\d+:1: \d+:62>::map_coords', r'_1: &geo_types::Point<')
+    fn = mir.find('geo', r'twice_signed_ring_area')
+    for n in (4, 5, 6):
+        pts = [coord(T, 'v%d_' % i) for i in range(n - 1)]
+        ring = [[list(p) for p in pts] + [list(pts[0])]]          # LineString(Vec<Coord>) closed by construction
+        ip = Interp(mir, T, extra, {'re:geo_types::LineString::<\\w+>::lines': lines})
+        outs = ip.call_fn(fn, [Ref(lambda ring=ring: ring)], z3.BoolVal(True))
+        npaths += len(outs)
+        cs = pts + [pts[0]]
+        want = sum(cs[i][0] * cs[i + 1][1] - cs[i + 1][0] * cs[i][1] for i in range(n - 1))
+        bad.append(z3.Not(z3.Or([pc for pc, _ in outs])))
+        for pc, val in outs:
+            bad.append(z3.And(pc, val != want))
+        # open ring of the same length: zero unless first == last
+        opts = [coord(T, 'o%d_' % i) for i in range(n)]
+        oring = [[list(p) for p in opts]]
+        ip = Interp(mir, T, extra, {'re:geo_types::LineString::<\\w+>::lines': lines})
+        outs = ip.call_fn(fn, [Ref(lambda oring=oring: oring)], z3.BoolVal(True))
+        npaths += len(outs)
+        is_open = z3.Or(opts[0][0] != opts[-1][0], opts[0][1] != opts[-1][1])
+        for pc, val in outs:
+            bad.append(z3.And(pc, is_open, val != 0))
+    for n in (0, 1, 2):
+        opts = [coord(T, 's%d_' % i) for i in range(n)]
+        sring = [[list(p) for p in opts]]
+        ip = Interp(mir, T, extra, {'re:geo_types::LineString::<\\w+>::lines': lines})
+        outs = ip.call_fn(fn, [Ref(lambda sring=sring: sring)], z3.BoolVal(True))
+        npaths += len(outs)
+        for pc, val in outs:
+            bad.append(z3.And(pc, val != 0))
+    st, info, model = check_unsat('ring_area_shoelace_int', [z3.Or(bad)])
+    return dict(theory='Int (unbounded coordinates; ring length concrete 4..6, loops unrolled over the modelled lines() iterator)', functions=['area::twice_signed_ring_area', 'area::twice_signed_ring_area::{closure#0}', 'MapCoords for Line', 'Line::determinant'], paths=npaths, status=st, info=info, model=None, replay=('ring_area', ''))
 
 
 # ---- C05 kernels
